@@ -146,6 +146,8 @@ pub struct Recv {
     pub v_ms: u64,
     pub real_before: Instant,
     pub real_after: Instant,
+    /// real instant at which the poll that consumed the item returned to the harness
+    pub poll_end: Option<Instant>,
     pub epoch: u64,
     pub step: u64,
     pub order: u64,
@@ -306,6 +308,16 @@ impl<I> State<I> {
         self.epoch_start = Instant::now();
         self.step = step;
         self.noprog = 0;
+    }
+    /// the current poll of the owning task returned: close the real-time bracket of what it read
+    pub fn stamp_poll_end(&mut self) {
+        let now = Instant::now();
+        for r in self.recv.iter_mut().rev() {
+            if r.poll_end.is_some() {
+                break;
+            }
+            r.poll_end = Some(now);
+        }
     }
     /// The owning task returned Pending (going idle): C14(c).
     pub fn on_task_pending(&mut self) {
@@ -562,6 +574,7 @@ impl<S, I: Abstract> Stream for Mock<S, I> {
                 v_ms,
                 real_before: before,
                 real_after: Instant::now(),
+                poll_end: None,
                 epoch,
                 step,
             });
